@@ -626,6 +626,9 @@ class Interp:
                     return init
             raise Unsupported(f"attribute {base.cls}.{attr} not modelled (object {base.label})")
         if isinstance(base, SRef):
+            cb = base.cls.split("@", 1)[0]
+            if (cb, attr) not in self.heap_schema() and (cb, attr) in self.reg.methods:
+                return BoundMethod(base, attr)
             return self.heap_get(base, attr)
         if isinstance(base, ModuleVal):
             full = f"{base.name}.{attr}"
@@ -1178,6 +1181,8 @@ class Interp:
                 raise Unsupported(f"class {recv.name} has no modelled attribute {name}")
             return h(self, recv, args, kwargs)
         kn = _kindname(recv)
+        if isinstance(recv, SRef):
+            kn = recv.cls.split("@", 1)[0]     # heap objects: methods are registered for the class, not the generation
         h = self.reg.methods.get((kn, name))
         if h is None:
             pytype = {"str": str, "bytes": bytes, "int": int, "bool": bool, "float": float, "list": list, "dict": dict,
